@@ -15,27 +15,30 @@ import (
 
 // Scenario is one operation + plan (+ schedule) to execute on a probe server.
 type Scenario struct {
-	ID      string                `json:"id"`
-	Variant string                `json:"variant"`
-	Op      *Op                   `json:"op"`
-	Query   string                `json:"query"`
-	Vars    map[string]any        `json:"vars"`
-	Plan    map[string]ur.Outcome `json:"plan"`
-	DirPlan map[string]string     `json:"dirplan"`
-	Sched   string                `json:"sched"`
-	Order   []string              `json:"order"`
-	Cancel  int                   `json:"cancel_at"`
-	Mode    string                `json:"mode"`
-	Leak    bool                  `json:"leak_check"`
-	Note    string                `json:"note"`
-	Result  *ur.Result            `json:"result,omitempty"`
-	Crashed bool                  `json:"crashed,omitempty"`
-	Stderr  string                `json:"stderr,omitempty"`
+	ID         string                `json:"id"`
+	Variant    string                `json:"variant"`
+	Op         *Op                   `json:"op"`
+	Query      string                `json:"query"`
+	Vars       map[string]any        `json:"vars"`
+	Plan       map[string]ur.Outcome `json:"plan"`
+	DirPlan    map[string]string     `json:"dirplan"`
+	Sched      string                `json:"sched"`
+	Order      []string              `json:"order"`
+	Cancel     int                   `json:"cancel_at"`
+	Mode       string                `json:"mode"`
+	Leak       bool                  `json:"leak_check"`
+	Note       string                `json:"note"`
+	TimeoutMs  int                   `json:"timeout_ms,omitempty"`
+	LeakWaitMs int                   `json:"leak_wait_ms,omitempty"`
+	Result     *ur.Result            `json:"result,omitempty"`
+	Crashed    bool                  `json:"crashed,omitempty"`
+	Stderr     string                `json:"stderr,omitempty"`
 }
 
 func (s *Scenario) cmd() *ur.Cmd {
 	return &ur.Cmd{Cmd: "exec", ID: s.ID, Query: s.Query, Vars: s.Vars, Plan: s.Plan, DirPlan: s.DirPlan,
-		Sched: s.Sched, Order: s.Order, CancelAt: s.Cancel, Mode: s.Mode, LeakCheck: s.Leak}
+		Sched: s.Sched, Order: s.Order, CancelAt: s.Cancel, Mode: s.Mode, LeakCheck: s.Leak,
+		TimeoutMs: s.TimeoutMs, LeakWaitMs: s.LeakWaitMs}
 }
 
 // FetchSchema asks a probe binary for its schema JSON.
@@ -102,7 +105,11 @@ func RunScenarios(bin string, scs []*Scenario, procs int, env []string) error {
 					continue
 				}
 				var r ur.Result
-				if err := p.Recv(&r, 30*time.Second); err != nil {
+				rt := 30 * time.Second
+				if s.TimeoutMs > 0 {
+					rt += time.Duration(s.TimeoutMs+s.LeakWaitMs) * time.Millisecond
+				}
+				if err := p.Recv(&r, rt); err != nil {
 					s.Crashed = true
 					s.Stderr = p.Stderr
 					if !p.Died {
@@ -314,4 +321,28 @@ func truncAll(ss []string, n int) []string {
 		out[i] = trunc(s, n)
 	}
 	return out
+}
+
+// Confirm re-runs a scenario whose verdict rests on the ABSENCE of progress
+// (hang, surviving goroutines) alone in a fresh process with 10x the waits.
+// Only a reproduced observation is reported; a slow machine is not a defect.
+func Confirm(bin string, s *Scenario, env []string) *Scenario {
+	cp := *s
+	cp.Result, cp.Crashed, cp.Stderr = nil, false, ""
+	cp.TimeoutMs = 50000
+	cp.LeakWaitMs = 15000
+	cp.Leak = true
+	_ = RunScenarios(bin, []*Scenario{&cp}, 1, env)
+	return &cp
+}
+
+// BlockedOnly reports whether every goroutine in a dump is parked (not runnable/running).
+func BlockedOnly(stack string) bool {
+	for _, g := range strings.Split(stack, "\n\n") {
+		first := strings.SplitN(g, "\n", 2)[0]
+		if strings.Contains(first, "[runnable") || strings.Contains(first, "[running") {
+			return false
+		}
+	}
+	return true
 }
